@@ -145,7 +145,7 @@ var properties = map[string][]harnessSpec{
 		{Name: "op.VerifC14Chain", Quick: map[string]int{"C14.maxLen": 2}, Thorough: map[string]int{"C14.maxLen": 3}, Marks: end},
 	},
 	"C08": {
-		{Name: "midix.VerifC08File", Quick: map[string]int{"C08.maxOps": 2, "C08.maxTracks": 2, "C08.maxKeys": 2}, Thorough: map[string]int{"C08.maxOps": 2, "C08.maxTracks": 3, "C08.maxKeys": 3}, Marks: end},
+		{Name: "midix.VerifC08File", Quick: map[string]int{"C08.maxOps": 2, "C08.maxTracks": 2, "C08.maxKeys": 2}, Thorough: map[string]int{"C08.maxOps": 2, "C08.maxTracks": 3, "C08.maxKeys": 2}, Marks: end},
 		{Name: "midix.VerifC08TrackCountLimit", Marks: end},
 		{Name: "cmd.VerifC08WriteCmd", Quick: map[string]int{"C08.cmdTracks": 4}, Thorough: map[string]int{"C08.cmdTracks": 8}, Marks: end},
 		{Name: "midix.VerifC02NoteStep", Quick: map[string]int{"C02.maxTracks": 3, "C02.maxKeys": 3}, Thorough: map[string]int{"C02.maxTracks": 4, "C02.maxKeys": 5}, Marks: end},
